@@ -6,6 +6,10 @@ TITLES = {
     "C13-a": "gRPC-Web trailer values trimmed with `TrimSpace` (VT/FF/CR at the value's edge no longer flagged)",
     "C13-b": "`PercentEncodeMessage` fast path forgets that `%` itself must be escaped",
     "C13-c": "compressed end-of-stream message arriving in two or more reads is not captured (examiner never runs)",
+    "C13-k": "`checkGRPCStatus`: a grpc-message that is present but empty is no longer compared with the message inside grpc-status-details-bin",
+    "C13-l": "`tracer.GetDecompressor` returns one process-wide zstd decompressor instead of a fresh one per caller",
+    "C13-m": "capture buffer for unary Connect error bodies comes from a sync.Pool and is never reset: leftovers of a body the examiner gave up on prefix the next one",
+    "C13-n": "`ShouldEscapeByteInMessage` bound changed to `>= utf8.RuneSelf`: 0x7F is neither escaped nor flagged",
     "C13-d": "a trailer name announced but never sent makes a gRPC trailers-only response look like it had trailers",
 }
 rows = []
